@@ -49,7 +49,7 @@ func init() {
 				emptiedTopBlockTemplate(cs, seed, run)
 				return cs
 			}
-			if pf := cs.Cfg.Prefill; run%40 == 7 && pf != nil && len(pf.Survivors) > 0 {
+			if pf := cs.Cfg.Prefill; run%40 == 9 && pf != nil && len(pf.Survivors) > 0 {
 				// rarely reached size: an enum column whose string table holds more than 65536 entries
 				for _, c := range cs.Schema {
 					if c.Kind == KEnum {
